@@ -431,7 +431,7 @@ def splitKey (k : List Char) : Option (List Char × List Char × List Char) :=
     | some (r, nm) => some (d, r, nm)
 
 /-- one iteration of the loop of `generate_inventory` (first definition of the key) -/
-def generateEntry (key : List Char) (d : LocalDef) : Option Entry :=
+def generateEntry (P : PyRe) (key : List Char) (d : LocalDef) : Option Entry :=
   match asDirhtml d.fileid with
   | none => none
   | some dir =>
@@ -439,18 +439,20 @@ def generateEntry (key : List Char) (d : LocalDef) : Option Entry :=
     | none => none
     | some (dom, role, _) =>
       let u := if dom = sStd ∧ role = ['d', 'o', 'c'] then dir else dir ++ '#' :: d.htmlId
-      some { name := d.canonical, domain := dom, role := role, priority := -1, uriBase := u, uri := u,
+      -- the name is exported the way keys are kept and queries are normalised (`normalize_target`): a newline or a run
+      -- of blanks in a directive argument / glossary term would otherwise break the line format, or never be found
+      some { name := normalizeWs P d.canonical, domain := dom, role := role, priority := -1, uriBase := u, uri := u,
              display := if d.title = [] then none else some d.title }
 
 /-- `generate_inventory`: `none` = an exception escaped -/
-def generateInventory : List (List Char × List LocalDef) → Option Dict
+def generateInventory (P : PyRe) : List (List Char × List LocalDef) → Option Dict
   | [] => some []
-  | (_, []) :: rest => generateInventory rest
+  | (_, []) :: rest => generateInventory P rest
   | (k, d :: _) :: rest =>
-    match generateEntry k d with
+    match generateEntry P k d with
     | none => none
     | some e =>
-      match generateInventory rest with
+      match generateInventory P rest with
       | none => none
       | some inv => some ((k, e) :: inv)
 
